@@ -269,7 +269,14 @@ func cid(c *ctx, template []byte, cfg dcfg, plans []chunkPlan) {
 
 // ---- debug wrappers -----------------------------------------------------------------------
 
+// dbdExtra / dbuExtra: further observation kinds fed by the same generators (zz_dbgfull.go: DFD / DFU)
+var dbdExtra func(c *ctx, template []byte, sizes []int, rbuf int, cfg dcfg, setReq, setResp bool)
+var dbuExtra func(c *ctx, req []byte, sizes []int, cfg ucfg, setReq, setResp bool)
+
 func dbu(c *ctx, req []byte, sizes []int, cfg ucfg, setReq, setResp bool) {
+	if dbuExtra != nil {
+		defer dbuExtra(c, req, sizes, cfg, setReq, setResp)
+	}
 	dbuW(c, 0, req, sizes, cfg, setReq, setResp)
 }
 
@@ -323,6 +330,9 @@ func (n scriptNetConn) SetReadDeadline(time.Time) error  { return nil }
 func (n scriptNetConn) SetWriteDeadline(time.Time) error { return nil }
 
 func dbd(c *ctx, template []byte, sizes []int, rbuf int, cfg dcfg, setReq, setResp bool) {
+	if dbdExtra != nil {
+		defer dbdExtra(c, template, sizes, rbuf, cfg, setReq, setResp)
+	}
 	run := func(debug bool) (cls string, hs ws.Handshake, left, req, nonce, gotReq, gotResp []byte, nReq, nResp int, actual [][]byte) {
 		sc := &scriptConn{template: template, sizes: sizes, tail: io.EOF}
 		dl := cfg.dialer(rbuf, 0)
